@@ -166,7 +166,7 @@ func (c *controller) pick(w *World, prev *G) (*G, int32) {
 			}
 			var e effect
 			w.effectOf(g, o.c.Alt, &e)
-			succ := c.successorSleep(w, n, n.idx, g, &e)
+			succ := c.successorSleep(w, n, n.idx, g, &e, prev)
 			if !c.opts.NoCache {
 				// State cache on predicted successor states: the state reached by an option is identified by
 				// the causal-history key right after the chosen operation (computed without executing it) plus
@@ -204,7 +204,7 @@ func (c *controller) pick(w *World, prev *G) (*G, int32) {
 	if !c.opts.NoSleep {
 		var e effect
 		w.effectOf(g, o.c.Alt, &e)
-		w.sleep = c.successorSleep(w, n, n.idx, g, &e)
+		w.sleep = c.successorSleep(w, n, n.idx, g, &e, prev)
 		if o.fp != nil {
 			// record the footprint of this option's first run (every execution through it contributes)
 			addPending(o.fp, g)
@@ -229,11 +229,16 @@ func asleep(sleep []sleepEntry, o *option) bool {
 
 // successorSleep is the sleep set after taking option i of node n: the current sleep set plus the earlier
 // explored siblings, minus everything woken by the operation.
-func (c *controller) successorSleep(w *World, n *node, i int, g *G, e *effect) []sleepEntry {
+func (c *controller) successorSleep(w *World, n *node, i int, g *G, e *effect, prev *G) []sleepEntry {
 	if c.opts.NoSleep {
 		return nil
 	}
 	cur := w.sleep
+	if prev != nil && prev != g && prev.state == gParked && len(cur) > 0 {
+		// prev's run ends here, parked on its pending operation: the run depends on the objects of that
+		// operation (it is blocked on them / they decide how it continues), so they belong to its footprint
+		cur = wakePending(cur, prev)
+	}
 	added := false
 	for j := 0; j < i; j++ {
 		s := &n.opts[j]
